@@ -63,6 +63,7 @@ SHARD_TIMEOUT = {'quick': 1800, 'thorough': 14400}
 
 N_MODELS = {'quick': 360, 'thorough': 3000}
 EST_EVERY = 3  # one case out of EST_EVERY estimates O, S and R
+N_HISTORIES = {'quick': 240, 'thorough': 2400}
 
 DUP_KINDS = ['free-fixed', 'free-var', 'fixed-var', 'free-unusedcol', 'free-draws', 'fixed-draws', 'free-rv',
              'draws-var', 'rv-var', 'rv-draws', 'free-fixed-across-formulas', 'free-var-across-formulas']
@@ -81,6 +82,11 @@ def cases(seed, tier):
             out.append({'mode': 'dup', 'kind': k, 'entry': e, 'seed': seed})
     for v in range(4):
         out.append({'mode': 'directed-fixed-update', 'variant': v, 'seed': seed})
+    for i in range(N_HISTORIES[tier]):
+        out.append({'mode': 'history', 'seed': seed, 'i': i, 'directed': None})
+    for shape in ('c03c-shape', 'nest-shape', 'older-model-shape'):
+        for v in range(3):
+            out.append({'mode': 'history', 'seed': 0, 'i': 9000 + v, 'directed': shape})
     return out
 
 
@@ -1627,8 +1633,334 @@ def _run_directed_fixed_update(case):
     return rec.out()
 
 
+# ---------------------------------------------------------------------------
+# histories on shared expression objects
+
+STALE_MECH = 'simulate-pairs-by-stale-position-after-its-expression-objects-were-registered-elsewhere'
+
+
+def _run_history(case):
+    from ..gen import c03_history as gh
+    from ..oracle import c03_ref as ref, signature
+    from ..monitors import engine_proxy as ep
+    from biogeme.biogeme import BIOGEME
+    from biogeme.exceptions import BiogemeError
+
+    rec = Rec(case)
+    world = gh.World(case['seed'], case['i'])
+    steps = gh.plan(world, case.get('directed'))
+    r = random.Random(f'c03histrun-{case["seed"]}-{case["i"]}')
+    status = dict(world.status)
+    init = dict(world.init)
+    models = []
+    done = []
+    ep.reset()
+
+    def subasts(ast, acc):
+        if isinstance(ast, list) and ast and isinstance(ast[0], str):
+            acc.add(json_key(ast))
+            for x in ast[1:]:
+                if isinstance(x, list):
+                    if x and isinstance(x[0], str):
+                        subasts(x, acc)
+                    else:
+                        for y in x:
+                            if isinstance(y, list):
+                                for z in y:
+                                    if isinstance(z, list):
+                                        subasts(z, acc)
+        return acc
+
+    import json as _json
+
+    def json_key(a):
+        return _json.dumps(a)
+
+    def sole_owner(m):
+        """nothing else registered m's expression objects since m was built: no younger model, and every
+        stand-alone evaluation since then was made on one of m's own (sub-)expressions"""
+        return m is models[-1] and not m['foreign_eval']
+
+    def V(m, mech, msg, **kw):
+        w = {'names': world.names, 'status_at_start': world.status, 'init_at_start': world.init, 'pool': world.pool,
+             'loglike': world.loglike, 'data': world.data, 'steps_so_far': done, 'model_index': m['idx'] if m else None,
+             'model_formulas': m['forms'] if m else None}
+        w.update(kw)
+        if m is not None and not sole_owner(m):
+            rec.violation('C03/' + STALE_MECH, f'[{mech}] model #{m["idx"]} of {len(models)} (younger model or foreign stand-alone '
+                          f'evaluation since it was built): {msg}', w)
+        else:
+            rec.violation('C03/history-' + mech, msg, w)
+
+    def handover(m, sigs, free_vec, fixed_vec, cols, supplied):
+        for sig in sigs:
+            try:
+                _, _, info = signature.decode(sig, free_vec, fixed_vec, cols)
+            except signature.SignatureError as e:
+                V(m, 'handover-signature-unparsable', str(e))
+                continue
+            for lf in info['leaves']['beta']:
+                nm = lf['name']
+                rec.ev()
+                rec.c('history_handover_beta_leaves_checked')
+                if nm not in m['status']:
+                    V(m, 'handover-unknown-parameter', f'{nm!r}')
+                    continue
+                st = m['status'][nm]
+                if (lf['status'] != 0) != (st != 0):
+                    V(m, 'handover-beta-status', f'Beta {nm!r} serialised with status {lf["status"]}, model built with {st}')
+                    continue
+                vec = free_vec if st == 0 else fixed_vec
+                want = supplied[nm] if st == 0 else m['fixedvals'][nm]
+                if not (0 <= lf['id'] < len(vec)):
+                    V(m, 'handover-beta-index-out-of-range', f'Beta {nm!r} carries index {lf["id"]}, vector length {len(vec)}', name=nm)
+                    return
+                if float(vec[lf['id']]) != float(want):
+                    V(m, 'handover-beta-index-designates-value-of-another-parameter',
+                      f'Beta {nm!r} carries index {lf["id"]} where the vector handed over holds {vec[lf["id"]]}; the value supplied '
+                      f'for that name is {want}', name=nm)
+                    return
+
+    def last(owner, op):
+        for e in reversed(owner.calls):
+            if e.get('op') == op:
+                return e
+        return None
+
+    def judge(m):
+        if m['retired']:
+            return
+        bg = m['bg']
+        free = m['free']
+        vals = gm_distinct(r, len(free))
+        pt = dict(zip(free, vals))
+        values = dict(m['fixedvals'])
+        values.update(pt)
+        items = list(pt.items())
+        r.shuffle(items)
+        d = dict(items)
+        if r.random() < 0.3:
+            d['nobody_'] = 4.5
+        rec.c('history_judgements')
+        if sole_owner(m):
+            rec.c('history_judgements_sole_owner')
+        if m['nsim'] == 0 and len(done) > m['built_at'] + 1:
+            rec.c('history_first_simulate_after_later_steps')
+        try:
+            sim = bg.simulate(d)
+        except BaseException as e:
+            V(m, f'simulate-raises-{type(e).__name__}', f'simulate({d}): {e}')
+            sim = None
+        m['nsim'] += 1
+        if sim is not None:
+            e = last(bg.theC, 'simulateSeveralFormulas')
+            if e is not None:
+                a = e['args']
+                handover(m, a[0], list(a[1]), list(a[2]), a[3]['columns'] if isinstance(a[3], dict) else None, pt)
+            for k, ast in m['forms'].items():
+                want = ref.rows(ast, world.data, values)
+                got = sim[k].to_numpy(dtype=float) if k in sim.columns else None
+                rec.ev()
+                rec.c('history_simulate_vs_reference')
+                if got is None or got.shape != want.shape or not close(got, want, 1e-9, 1e-11):
+                    V(m, 'simulate-differs-from-reference-with-values-assigned-by-name',
+                      f'formula {k!r}: simulate({d})={None if got is None else got.tolist()} reference={want.tolist()}', formula=k)
+                    break
+        if list(bg.free_beta_names) != free:
+            V(m, 'free-beta-names-changed', f'{bg.free_beta_names} vs {free}')
+        if 'log_like' in m['forms']:
+            x = [pt[n] for n in free]
+            try:
+                ll = bg.calculate_likelihood(x, scaled=False)
+                want = ref.loglike(m['forms']['log_like'], {'data': world.data, 'weight': None}, values)
+                rec.ev()
+                rec.c('history_likelihood_vs_reference')
+                if not close(ll, want, 1e-9, 1e-10):
+                    V(m, 'likelihood-differs-from-reference-with-values-assigned-by-name', f'{ll!r} vs {want!r} at {pt}')
+                e = last(bg.theC, 'calculateLikelihood')
+                se = last(bg.theC, 'setExpressions')
+                dd = last(bg.theC, 'setData')
+                if e is not None and se is not None:
+                    handover(m, [se['args'][0]], list(e['args'][0]), list(e['args'][1]), dd['args'][0]['columns'] if dd else None, pt)
+            except BaseException as e:
+                V(m, f'calculate-likelihood-raises-{type(e).__name__}', str(e))
+
+    def ids_restored(what):
+        """after a stand-alone evaluation of one of its own (sub-)expressions the sole owner's objects carry ITS id manager again"""
+        if not models:
+            return
+        m = models[-1]
+        if m['retired'] or not sole_owner(m):
+            return
+        rec.ev()
+        rec.c('history_ids_restored_checked')
+        for b in _all_betas(list(m['exprs'].values())):
+            if b.id_manager is not m['bg'].id_manager:
+                V(m, 'ids-of-the-owning-model-not-restored-after-stand-alone-evaluation',
+                  f'after {what}: Beta {b.name!r} of the last built model carries another id manager '
+                  f'({"none" if b.id_manager is None else "free names " + str(b.id_manager.free_betas.names)}; the model numbers {m["free"]})', name=b.name)
+                return
+
+    def gm_distinct(rr, n):
+        from ..gen import c03_models as gm
+
+        return gm._distinct_values(rr, n, -0.9, 0.9)
+
+    for si, st in enumerate(steps):
+        op = st['op']
+        done.append(st)
+        rec.c('history_step_' + op)
+        if op == 'build':
+            forms = st['forms']
+            try:
+                exprs = {k: world.obj(a) for k, a in forms.items()}
+                bg = BIOGEME(world.database(f'h{len(models)}'), exprs, parameters=_params())
+            except BaseException as e:
+                V(None, f'build-raises-{type(e).__name__}', str(e))
+                return rec.out()
+            used = []
+            for a in forms.values():
+                gh.names_in(a, used)
+            own = set()
+            for a in forms.values():
+                subasts(a, own)
+            m = {'bg': bg, 'exprs': exprs, 'forms': forms, 'idx': len(models), 'built_at': si, 'retired': False, 'nsim': 0,
+                 'free': sorted(n for n in used if status[n] == 0), 'fixed': sorted(n for n in used if status[n] != 0),
+                 'status': {n: status[n] for n in used}, 'fixedvals': {n: init[n] for n in used if status[n] != 0},
+                 'own': own, 'foreign_eval': False, 'used': set(used)}
+            if models:
+                prev = models[-1]
+                shared = [n for n in prev['free'] if n in m['free']]
+                if any(prev['free'].index(n) != m['free'].index(n) for n in shared):
+                    rec.c('history_models_numbering_shared_parameters_differently')
+            models.append(m)
+            if list(bg.free_beta_names) != m['free']:
+                V(m, 'free-beta-names-not-sorted-names-of-the-model', f'{bg.free_beta_names} vs {m["free"]}')
+        elif op in ('judge-latest', 'judge-all'):
+            for m in (models[-1:] if op == 'judge-latest' else models):
+                judge(m)
+            continue
+        elif op == 'eval':
+            ast = st['ast']
+            nm = gh.names_in(ast)
+            betas = st['betas']
+            if betas is not None:
+                betas = {k: v for k, v in betas.items() if k not in status or status[k] == 0}
+            vals = {n: init[n] for n in nm}
+            if betas:
+                vals.update({k: v for k, v in betas.items() if k in vals})
+            o = world.obj(ast)
+            key = json_key(ast)
+            for m in models:
+                if key not in m['own']:
+                    m['foreign_eval'] = True
+            try:
+                if gh.has_var(ast):
+                    got = np.asarray(o.get_value_c(database=world.database('ev'), betas=betas, prepare_ids=True), dtype=float)
+                    want = ref.rows(ast, world.data, vals)
+                else:
+                    got = np.asarray(o.get_value_c(betas=betas, prepare_ids=True), dtype=float)
+                    want = ref.rows(ast, world.data, vals)[0]
+                rec.ev()
+                rec.c('history_stand_alone_evaluations')
+                if not close(got, want, 1e-9, 1e-11):
+                    rec.violation('C03/history-stand-alone-evaluation-differs-from-reference-by-name',
+                                  f'get_value_c(betas={betas}, prepare_ids=True)={got.tolist()} reference={np.asarray(want).tolist()}',
+                                  {'ast': ast, 'steps_so_far': done, 'init': init, 'status': status})
+            except BaseException as e:
+                rec.violation(f'C03/history-stand-alone-evaluation-raises-{type(e).__name__}', str(e), {'ast': ast, 'steps_so_far': done})
+            ids_restored(f'get_value_c(prepare_ids=True) of {ast}')
+        elif op == 'chinit':
+            vals = {k: v for k, v in st['values'].items() if status[k] == 0}
+            live = [m for m in models if not m['retired']]
+            try:
+                if st['via_model'] and live:
+                    m = r.choice(live)
+                    m['bg'].change_init_values(dict(vals))
+                    touched = m['used']
+                    rec.c('history_change_init_through_model')
+                else:
+                    world.obj(st['ast']).change_init_values(dict(vals))
+                    touched = set(gh.names_in(st['ast']))
+                for k, v in vals.items():
+                    if k in touched:
+                        init[k] = v
+                rec.ev()
+                for n, b in world.beta_obj.items():
+                    if float(b.initValue) != float(init[n]) or b.status != status[n]:
+                        rec.violation('C03/history-change-init-values-shared-object-state',
+                                      f'Beta {n!r}: value {b.initValue} status {b.status}; expected {init[n]} {status[n]}',
+                                      {'steps_so_far': done})
+                        break
+            except BaseException as e:
+                rec.violation(f'C03/history-change-init-values-raises-{type(e).__name__}', str(e), {'steps_so_far': done})
+        elif op == 'fix':
+            nm = [n for n in gh.names_in(st['ast']) if status[n] == 0]
+            still_free = [n for n in world.names if status[n] == 0]
+            if nm and len(still_free) >= 2:
+                n = nm[0]
+                try:
+                    world.obj(st['ast']).fix_betas({n: st['value'], 'nobody_': 1.0})
+                    status[n] = 1
+                    init[n] = st['value']
+                    b = world.beta_obj.get(n)
+                    rec.ev()
+                    rec.c('history_fix_betas')
+                    if b is not None and (b.status == 0 or float(b.initValue) != float(st['value'])):
+                        rec.violation('C03/history-fix-betas-not-applied-by-name', f'{n!r}: {b.status} {b.initValue}', {'steps_so_far': done})
+                    for m in models:
+                        if n in m['used']:
+                            m['retired'] = True  # another specification from now on
+                            rec.c('history_models_retired_by_fix_betas')
+                except BaseException as e:
+                    rec.violation(f'C03/history-fix-betas-raises-{type(e).__name__}', str(e), {'steps_so_far': done})
+        elif op == 'corr':
+            from biogeme.nests import OneNestForNestedLogit, NestsForNestedLogit
+
+            n = st['name']
+            params = st['parameters']
+            if params is not None:
+                params = {k: v for k, v in params.items() if status[k] == 0}
+            b = world.obj(['beta', n])
+            key = json_key(['beta', n])
+            for m in models:
+                if key not in m['own']:
+                    m['foreign_eval'] = True
+            try:
+                nests = NestsForNestedLogit(choice_set=[1, 2, 3], tuple_of_nests=(
+                    OneNestForNestedLogit(nest_param=b, list_of_alternatives=[1, 3], name='shared_nest'),))
+                cm = nests.correlation(parameters=params)
+                if params and n in params:
+                    init[n] = params[n]
+                mu = init[n]
+                want = 1.0 - 1.0 / (mu * mu)
+                got = float(cm.to_numpy()[0][2])
+                rec.ev()
+                rec.c('history_nest_correlations')
+                if not close(got, want, 1e-9, 1e-11):
+                    rec.violation('C03/history-nest-correlation-not-from-the-named-parameter',
+                                  f'correlation(parameters={params}) gives {got}; 1-1/mu^2 with {n!r}={mu} is {want}', {'steps_so_far': done})
+            except BaseException as e:
+                rec.violation(f'C03/history-nest-correlation-raises-{type(e).__name__}', str(e), {'steps_so_far': done})
+            ids_restored(f'NestsForNestedLogit.correlation() with nest parameter {n!r}')
+        # judge the live models (each with probability 0.55: first simulations must also happen late)
+        if st.get('judge', True):
+            for m in models:
+                if not m['retired'] and r.random() < 0.55:
+                    judge(m)
+    for m in models:
+        judge(m)
+    live = [m for m in models if not m['retired']]
+    if len(models) >= 2 and any(m['nsim'] for m in live):
+        rec.key(['history', world.names, world.pool, steps])
+    rec.sample({'parameters': world.names, 'status': world.status, 'pool_of_shared_formulas': world.pool, 'steps': steps})
+    return rec.out()
+
+
 def run_case(case):
     mode = case['mode']
+    if mode == 'history':
+        return _run_history(case)
     if mode == 'model':
         return _run_model(case)
     if mode == 'dup':
